@@ -438,6 +438,35 @@ def computeZenerRadius(self, model):
             z[p] += np.power(model.pData.volFrac[model.pData.n,p], self.m[phaseName]) / (self.K[phaseName] * model.pData.Ravg[model.pData.n,p])
     self._z = np.sum(z)
 ''',
+    'LoadDistribution': '''
+def LoadDistribution(self, data):
+    self.pbm.reset()
+    self.pbm.PSD, self.pbm.PSDbounds = np.histogram(data, self.pbm.PSDbounds)
+    self.pbm.PSD = self.pbm.PSD.astype('float')
+    self.Normalize()
+    self.avgR[0] = self.Rm(self.pbm.PSD)
+    self._oldPSD, self._oldPSDbounds = np.array(self.pbm.PSD), np.array(self.pbm.PSDbounds)
+    self.dissolutionIndex = self.pbm.getDissolutionIndex(self.maxDissolution, 0)
+''',
+    'LoadDistributionFunction': '''
+def LoadDistributionFunction(self, function):
+    self.pbm.reset()
+    self.pbm.PSD = function(self.pbm.PSDsize)
+    self.Normalize()
+    self.avgR[0] = self.Rm(self.pbm.PSD)
+    self._oldPSD, self._oldPSDbounds = np.array(self.pbm.PSD), np.array(self.pbm.PSDbounds)
+    self.dissolutionIndex = self.pbm.getDissolutionIndex(self.maxDissolution, 0)
+''',
+    'reset': '''
+def reset(self):
+    self.time = np.zeros(1)
+    self.avgR = np.zeros(1)
+    self._z = 0
+    self._growthRate = np.zeros(len(self.pbm.PSDbounds))
+    self.pbm.reset()
+    self.pbm.PSD, self.pbm.PSDbounds = np.array(self._oldPSD), np.array(self._oldPSDbounds)
+    self.dissolutionIndex = 0
+''',
     'updateCoupledModel': '''
 def updateCoupledModel(self, model):
     self.computeZenerRadius(model)
@@ -460,7 +489,11 @@ Definition normalize_gen (O : Ops) (size psd : list (T O)) : list (T O) :=
 Definition Rm3_gen (O : Ops) (size x : list (T O)) : T O :=
   dvd O (momentFromN O size x 3) (momentFromN O size x 0).
 Definition zener1_gen (f m K Ravg : R) : R := if Rlt_dec 0 Ravg then npow f m / (K * Ravg) else 0.
-Definition span_gen (O : Ops) (tn tprev : T O) : T O := sub O tn tprev.'''
+Definition span_gen (O : Ops) (tn tprev : T O) : T O := sub O tn tprev.
+(* LoadDistribution / LoadDistributionFunction: the loaded distribution is normalised and THEN backed up; reset() restores the backup *)
+Definition gload_gen (O : Ops) (size raw : list (T O)) : gstate O :=
+  let p := normalize_gen O size raw in {| g_psd := p; g_backup := p |}.
+Definition greset_gen (O : Ops) (s : gstate O) : gstate O := {| g_psd := g_backup s; g_backup := g_backup s |}.'''
 
 
 def _find_class(mod, name):
@@ -666,7 +699,7 @@ def translate_graingrowth(src):
     for inherited in ('solve', 'setTimeInfo', 'updateCoupledModels', 'addCouplingModel', 'flattenX', 'unflattenX'):
         if inherited in meths:
             raise TranslationError('GrainGrowthModel overrides %s' % inherited, meths[inherited])
-    return [G_GG], ['constrained1_gen', 'growth1_gen', 'Rcr_gen', 'normalize_gen', 'Rm3_gen', 'zener1_gen', 'span_gen']
+    return [G_GG], ['constrained1_gen', 'growth1_gen', 'Rcr_gen', 'normalize_gen', 'Rm3_gen', 'zener1_gen', 'span_gen', 'gload_gen', 'greset_gen']
 
 
 T_GENERIC = {
